@@ -62,6 +62,7 @@ func (n *capNet) Broadcast(m *spectypes.SSVMessage) error {
 
 // World is a committee of N operators; the honest ones run real controllers.
 type World struct {
+	dbs      []interface{ Close() error }
 	KS       *tu.TestKeySet
 	N, F     int
 	Honest   []OpID
@@ -176,6 +177,7 @@ func NewWorld(n int, byz []int, height uint64, startVals map[int]string, role sp
 		if err != nil {
 			panic(err)
 		}
+		w.dbs = append(w.dbs, db)
 		cfg := &qbft.Config{
 			Signer:                tu.NewTestingKeyManager(),
 			SigningPK:             share.SharePubKey,
@@ -190,7 +192,27 @@ func NewWorld(n int, byz []int, height uint64, startVals map[int]string, role sp
 		w.Cfg[id] = cfg
 		w.Ctrl[id] = controller.NewController(w.ID, share, cfg, w.FullNode)
 	}
+	open = append(open, w)
 	return w
+}
+
+// every operator has its own in-memory badger (memtables + background goroutines): a driver that replays tens of
+// thousands of behaviours must release them (61k behaviours without this: 62 GB resident, OOM-killed)
+var open []*World
+
+func (w *World) Close() {
+	for _, db := range w.dbs {
+		_ = db.Close()
+	}
+	w.dbs = nil
+}
+
+// CloseAll closes every world created since the last call.
+func CloseAll() {
+	for _, w := range open {
+		w.Close()
+	}
+	open = nil
 }
 
 func (w *World) Share(id OpID) *spectypes.Share {
